@@ -76,6 +76,8 @@ def requests():
     R["3 cats m.m.cm"] = (lambda: Quantity.CreateDerived(_od(("length", "m", 1), ("depth", "m", 1), ("height", "cm", 1))),
                           ((("length", ("m", 1)), ("depth", ("m", 1)), ("height", ("cm", 1))), ""))
     R["1/s list"] = (lambda: ObtainQuantity([("s", -1)], ["time"]), ((("time", ("s", -1)),), ""))
+    R["empty cap"] = (lambda: ObtainQuantity(OrderedDict(), unknown_unit_caption="API gravity"), ((), "API gravity"))
+    R["empty cap list"] = (lambda: ObtainQuantity([], [], "API gravity"), ((), "API gravity"))
     # the same entries in another ORDER are another composing map: a different quantity (different strings, unequal)
     R["m.s dict"] = (lambda: ObtainQuantity(_od(("length", "m", 1), ("time", "s", 1))), ((("length", ("m", 1)), ("time", ("s", 1))), ""))
     R["s.m dict"] = (lambda: ObtainQuantity(_od(("time", "s", 1), ("length", "m", 1))), ((("time", ("s", 1)), ("length", ("m", 1))), ""))
@@ -85,7 +87,7 @@ def requests():
     return R
 
 
-OPS = ["edit_creation_spec", "scalar_add", "scalar_sub", "scalar_mul", "scalar_div", "scalar_rdiv", "q_add", "q_mul", "q_div", "array_add", "array_mul", "convert", "check_value",
+OPS = ["refused_override", "edit_creation_spec", "scalar_add", "scalar_sub", "scalar_mul", "scalar_div", "scalar_rdiv", "q_add", "q_mul", "q_div", "array_add", "array_mul", "convert", "check_value",
        "makecopy", "pickle", "copies", "hand_out_maps", "readonly"]
 
 
@@ -109,6 +111,8 @@ def items(tier, seed):
     # always in: the mutator / re-initialisation attempt on every request, and the order-variant requests against each other under several operations
     for a in names:
         out.append({"a": a, "b": names[(names.index(a) + 7) % len(names)], "ops": ["readonly"]})
+        out.append({"a": a, "b": names[(names.index(a) + 5) % len(names)], "ops": ["refused_override"]})
+        out.append({"a": a, "b": names[(names.index(a) + 3) % len(names)], "ops": ["pickle"]})
     variants = ["m.s dict", "s.m dict", "s*m op", "3 cats m.cm.m", "3 cats cm.m.m reordered", "m/s derived", "m/s list"]
     for a in variants:
         for b in variants:
@@ -192,6 +196,24 @@ def do_op(op, qa, qb, V):
                      ObtainQuantity([("m", 3), ("s", -1)], ["length", "time"]), qa.MakeCopy(_od(("length", "cm", 2), ("time", "s", -1)))]
             same = all(snap_quantity(q) == s0 for (q, _), s0 in zip(made, snaps)) and all(a is q for a, (q, _) in zip(again, made))
             return "spec-ok" if same else "spec-aliased"
+        if op == "refused_override":
+            # a redefinition of the operands' categories that is REFUSED (foreign unit, contradictory limits): a failed operation like any other
+            from barril.units import UnitDatabase
+
+            db_ = UnitDatabase.GetSingleton()
+            n_refused = 0
+            for q_ in (qa, qb):
+                cats = q_.GetComposingCategories()
+                for c_ in ([cats] if isinstance(cats, str) else list(cats)):
+                    if not c_ or not db_.IsValidCategory(c_):
+                        continue
+                    qt_ = db_.GetCategoryQuantityType(c_)
+                    for kw in ({"valid_units": ["no such unit"]}, {"default_unit": "no such unit"}, {"min_value": 2.0, "max_value": 1.0}):
+                        try:
+                            db_.AddCategory(c_, qt_, override=True, **kw)
+                        except Exception:  # noqa
+                            n_refused += 1
+            return "refused-%d" % n_refused
         if op == "readonly":
             # a second initialisation of a configured quantity (any argument form) leaves it as it is (the audit after this step compares every cached quantity)
             for q_ in (qa, qb):
